@@ -326,6 +326,25 @@ class _AsyncBridge:
                 self._loop.close()
 
 
+def tfdata_object(ds, split: str, **opts):
+    """The tf.data.Dataset object itself (to iterate it more than once)."""
+    opts = {k: v for k, v in opts.items() if v is not None}
+    opts.setdefault("batch_size", 0)
+    return ds.as_tfdataset(split, **opts), opts["batch_size"]
+
+
+def iterate_tfdata_object(tfds, batch_size: int, n=None) -> list:
+    it = iter(tfds.as_numpy_iterator())
+    if batch_size > 0:
+        it = _unbatch(it)
+    out = []
+    for ex in it:
+        out.append(ex)
+        if n is not None and len(out) >= n:
+            break
+    return out
+
+
 def read_all(ds, split: str, iface: str, **opts) -> list:
     opts.setdefault("repeat", False)
     it = open_iter(ds, split, iface, **opts)
